@@ -721,3 +721,5 @@ triage.add('C08', 'C08-R1', key('Type2TagCommandError', 'unguarded in', 'tag.tt2
            [('nfc.tag.tt2.Type2Tag.NDEF._read_capability_data', 'text:tag_memory[15] >> 4'),
             ('nfc.tag.tt2.Type2TagMemoryReader.__getitem__', 'text:key >= len(self)'),
             ('nfc.tag.tt2.Type2TagMemoryReader._read_from_tag', 'text:, stop, 16)')])
+
+EXPLANATION += ' Round 5: Type 4 capacity / reader / offsets against the address limit folded from READ BINARY; over-long READ BINARY answers; Type 1 / 2 length guard folded for empty messages and negative capacities; no uncounted call cycle in the tag cone (class-rooted call graph, canary).'
